@@ -127,7 +127,15 @@ fn syn_test(h: &super::c05::History, obs: &mut Obs) -> CheckResult {
     // expected last status per ttl: 0 not applicable, 1 not detected, 2 detected
     let mut want: BTreeMap<u8, u8> = BTreeMap::new();
     let (mut detected, mut after_gap) = (0usize, 0usize);
+    // rounds attributed to each registered flow, observed through the flows' round counters
+    let mut flow_rounds: BTreeMap<u64, Vec<usize>> = BTreeMap::new();
     let mut after = |k: usize, b: &super::c05::BuiltRound, state: &trippy_core::State| -> CheckResult {
+        for (_, id) in state.flows() {
+            let e = flow_rounds.entry(id.0).or_default();
+            if state.round_count(*id) > e.len() {
+                e.push(k);
+            }
+        }
         let mut prev: Option<u16> = None;
         let mut gap_since_prev = false;
         for p in &b.probes {
@@ -168,7 +176,23 @@ fn syn_test(h: &super::c05::History, obs: &mut Obs) -> CheckResult {
         }
         Ok(())
     };
-    super::c05::apply_history(h, &mut after)?;
+    let (state, built) = super::c05::apply_history(h, &mut after)?;
+    // the same rule holds for the per-flow tables (what the flows view shows): each flow's hops
+    // carry the status the rule gives over exactly the rounds attributed to that flow
+    for (_, id) in state.flows() {
+        let rounds: Vec<&super::c05::BuiltRound> = flow_rounds.get(&id.0).map(|v| v.iter().map(|k| &built[*k]).collect()).unwrap_or_default();
+        let model = super::c05::aggregate(&rounds);
+        for hop in state.hops_for_flow(*id) {
+            if hop.ttl() == 0 {
+                continue;
+            }
+            let w = super::c05::model_nat(&model[usize::from(hop.ttl())]);
+            vensure!(hop.last_nat_status() == w, "nat-status-flow", "flow {}: hop ttl {}: last_nat_status = {:?}, the rule over the flow's rounds {:?} gives {:?}", id.0, hop.ttl(), hop.last_nat_status(), flow_rounds.get(&id.0), w);
+        }
+        if rounds.len() >= 2 {
+            obs.class("synthetic:flow-with-several-rounds");
+        }
+    }
     if detected > 0 {
         obs.class("synthetic:detected");
     }
@@ -187,7 +211,7 @@ pub fn check() -> PropertyCheck {
     PropertyCheck {
         id: "C19",
         level: "exploration",
-        rule: "nat-e2e: cases = (UDP configuration of every strategy/family plus ICMP/TCP controls, world with 0..3 address/port rewriting devices at arbitrary distances, silent and lossy hops, ECMP) by proptest; oracle = per round, walk the ground-truth responders in probe order comparing the UDP checksum each one quoted with the previous responder's (first: with the checksum captured on the wire); non-trivial = Dublin/IPv4 run with >= 2 responders; distinct by (per-ttl expected status, #devices, packet size, pattern). synthetic: generated round sequences applied to State directly, completed probes carrying (expected, quoted) checksums from a 4-letter alphabet or none, silent / failed / skipped probes in between; oracle = the same walk; distinct by history",
+        rule: "nat-e2e: cases = (UDP configuration of every strategy/family plus ICMP/TCP controls, world with 0..3 address/port rewriting devices at arbitrary distances, silent and lossy hops, ECMP) by proptest; oracle = per round, walk the ground-truth responders in probe order comparing the UDP checksum each one quoted with the previous responder's (first: with the checksum captured on the wire); non-trivial = Dublin/IPv4 run with >= 2 responders; distinct by (per-ttl expected status, #devices, packet size, pattern). synthetic: generated round sequences applied to State directly, completed probes carrying (expected, quoted) checksums from a 4-letter alphabet or none, silent / failed / skipped probes in between; oracle = the same walk, for the default flow after every round and for every registered flow over the rounds attributed to it; distinct by history",
         assumptions: vec![
             "a NAT restores the quoted source address/port on the way back (RFC 5508) but not the quoted UDP checksum",
         ],
